@@ -239,6 +239,11 @@ pub fn edge_cases() -> Vec<String> {
         "fn g() -> X { } fn f() { let () = g(); }", "fn g() -> fn() { } fn f() { let (a,) = g(); }",
         "fn f(x: X) { let (a, b) = x; }", "fn g() -> X { } fn f() { let [a] = g(); }",
         "mod inner { e!(); } use inner::*; use x;", "mod inner{e(}use inner::*use", "mod inner { e!(); } use inner::*;",
+        // F12 - F15 (semantic leg)
+        "use crate; fn g(x: u8) { x.e(); }", "use crate as c; fn g(x: u8) { x.e(); }", "use crate fn{f.e(",
+        "macro m { () => { $( }; } m!();", "macro m() { $( } } m!()", "macro define_bar_twice(){$(}}define_bar_twice!()",
+        "fn f(r: [u8; f()]) {}", "fn f() -> [u8; f()] {}", "fn bar_ext(r:[f;bar_ext(",
+        "py)]\nstruct SB {\n    a: ,\n    b: fel    c: y)]\nstruct NoDrop;\n}\n\n\nfn bar(keep: bool, s: SB) {\n     bar_ext(s);\n    let SB { a, b: _b, c } = s;\n  let NoDrop {. } = c;\n  \n#_coern fn bar_ext(s: S",
         // F10 / F11 (semantic leg)
         "struct W {} impl I of core::ops::Deref<W> { type (fe u } fn f(w: W) -> u8 { w.1 }",
         "fn f() { write!(f,\"\\u007Bace}\")", "fn{write!(f,\"\\u007Bace}\")", "fn f() { write!(f,\"\\x7Bace}\") }",
